@@ -50,6 +50,9 @@ SC_PROGS = [
     [['R', 1], ['W', 2, 5], ['K'], ['R', 2], ['F'], ['R', 1], ['R', 2]],
     [['W', 1, 5], ['K'], ['R', 0], ['F'], ['R', 0]],
     [['R', 0], ['W', 1, 5], ['R', 3], ['K'], ['F'], ['R', 0], ['R', 3]],
+    # blind write -> dirty read (no read bit while the write bit is set) -> flush/commit (the written attribute gains its read bit) -> re-fetch -> read
+    [['W', 0, 5], ['R', 0], ['K'], ['F'], ['R', 0]],
+    [['W', 1, 5], ['R', 1], ['F'], ['R', 1], ['K'], ['F'], ['R', 1]],
 ]
 SC_ACTS = [['X', 0, 9], ['X', 1, 9], ['X', 2, 9], ['X', 3, 9], ['X', 0, None]]
 SC_DB0 = [1, 2, 3, 4]
